@@ -104,6 +104,18 @@ def join_wrapped(out):
     return "\n".join(lines)
 
 
+def count_bad(out):
+    """number of printed <<"BAD", ...>> values in (joined) TLC output: parsers compare it with what they understood"""
+    return sum(1 for l in out.split("\n") if l.startswith('<<"BAD"'))
+
+
+def expect_bad(r, parsed, what):
+    """a rejected record that a parser did not understand must never be dropped silently"""
+    n = count_bad(r["out"])
+    if n != parsed:
+        raise MachineryError("%s: TLC printed %d rejected records but %d were understood\n%s" % (what, n, parsed, r["out"][-1500:]))
+
+
 class MachineryError(Exception):
     pass
 
@@ -297,13 +309,16 @@ class Ctx:
         with concurrent.futures.ThreadPoolExecutor(par) as ex:
             for f, r in ex.map(one, files):
                 got = None
+                nb = 0
                 for l in r["printed"]:
                     m = re.match(r'<<"BAD", (.*)>>\s*$', l)
                     if m:
                         bad.append(parse_tla(m.group(1).split(", ")[0]))
+                        nb += 1
                     m = re.match(r'<<"CHECKED", (\d+)>>', l)
                     if m:
                         got = int(m.group(1))
+                expect_bad(r, nb, "%s/%s" % (module, os.path.basename(f)))
                 if got is None or r["error"] or r["rc"] != 0:
                     raise MachineryError("TLC validation of %s failed (rc=%s)\n%s" % (f, r["rc"], r["out"][-4000:]))
                 checked += got
